@@ -19,7 +19,7 @@ def field_values(width, orig, total_len):
     return sorted(vals)
 
 
-def mutations(seed, rng, budget, big_endian=False, dense_limit=1536, text=False, field_map=None):
+def mutations(seed, rng, budget, big_endian=False, dense_limit=1536, text=False, field_map=None, always=()):
     """-> list of (offset, width_code, value, cls); deduplicated"""
     n = len(seed)
     out = []
@@ -75,6 +75,11 @@ def mutations(seed, rng, budget, big_endian=False, dense_limit=1536, text=False,
         rest = [m for m in out if m not in set(keep)] if len(out) < 200000 else [m for m in out if not (m[3] == "truncate" and (m[0] < 512 or m[0] % 7 == 0))]
         rng.shuffle(rest)
         out = keep[:budget // 3] + rest[:budget - min(len(keep), budget // 3)]
+    # structural faults that must not be lost to sampling (link cycles, ...)
+    have = {(o, w, v) for o, w, v, _ in out}
+    for (o, w, v, c) in always:
+        if (o, w, v) not in have:
+            out.append((o, w, v, c))
     return out
 
 
